@@ -39,12 +39,14 @@ def search(tier, seed):
             total += 1
             if verdict != "SAME" or not res.startswith("OK"):
                 return total, "corpus case %s: %s / %s" % (C.show_input(h), res[:200], verdict[:600]), samples, kinds
-    for stream, cnt in (("parsed", n), ("generated", n // 2)):
+    for stream, cnt in (("parsed", n), ("generated", n // 2), ("deep", 0)):
         rows = owned_stream(stream, seed, cnt)
         for h, res, verdict in rows:
             total += 1
             k = res.split(" ", 3)[2][:24] if res.startswith("OK") else res
             kinds[k] = kinds.get(k, 0) + 1
+            if stream == "deep" and not res.startswith("OK"):
+                continue        # nesting beyond the parser's bound: refused, nothing to own
             if not res.startswith("OK"):
                 return total, "a generated response does not parse (%s): %s" % (res, C.show_input(h)), samples, kinds
             if verdict != "SAME":
@@ -61,7 +63,7 @@ def run(tier, seed, t0):
         raise RuntimeError("harness build failed:\n" + outh[-3000:])
     total, bad, samples, kinds = search(tier, seed)
     if bad:
-        raise C.Violation(PROP, "into_owned changes the value of a response", bad + "\nreplay: harness owned {parsed,generated} %d" % seed, True)
+        raise C.Violation(PROP, "into_owned changes the value of a response", bad + "\nreplay: harness owned {parsed,generated,deep} %d" % seed, True)
     if not proof["ok"]:
         raise C.Violation(PROP, proof["failure"], "search: into_owned preserved the value of all %d generated / parsed responses on the implementation" % total, False)
     C.ensure_built(PROP)
